@@ -98,8 +98,8 @@ func (e *FuncEnc) obligeNamed(clause, detail, formula string, pos token.Pos) {
 // ---------------------------------------------------------------- loops
 
 func (e *FuncEnc) computeLoopMods() {
-	for _, li := range e.loops {
-		for b := range li.body {
+	for _, li := range e.loopList() {
+		for _, b := range li.blocks() {
 			for _, in := range b.Instrs {
 				switch x := in.(type) {
 				case *ssa.Store:
@@ -504,7 +504,7 @@ func (e *FuncEnc) loopEntryTrace(li *loopInfo) string {
 // loopResponseFree: no instruction in the loop can write a status line or
 // delegate to a handler.
 func (e *FuncEnc) loopResponseFree(li *loopInfo) bool {
-	for b := range li.body {
+	for _, b := range li.blocks() {
 		for _, in := range b.Instrs {
 			c, ok := in.(ssa.CallInstruction)
 			if !ok {
